@@ -2,9 +2,8 @@ CONSTANTS K1 = 3
           K2 = 3
           K3 = 2
           Wide = 1
+          Part = "c"
 INIT Init
 NEXT Next
-INVARIANT Lemmas
-INVARIANT Emit
-INVARIANT Count
+INVARIANT Inv
 CHECK_DEADLOCK FALSE
